@@ -940,20 +940,60 @@ func (ex *Exec) havoc(st *State, ws *WriteSet, why string, fr *Frame) {
 		// the cell of a captured local variable is reachable only through the function literals that capture it
 		// (language fact): unless such a literal is what is being called, or one of them escaped (stored, passed on,
 		// started as a goroutine), no callee can change it
-		if !ex.inClosureCall && os.Getenv("CSVQVC_NOPRIVATE") == "" {
+		if os.Getenv("CSVQVC_NOPRIVATE") == "" {
 			for f := fr; f != nil; f = f.parent {
+				ff := f
+				pending := func(mc *ssa.MakeClosure) bool {
+					// created at most once (not inside a loop) and not yet met by the symbolic execution of this frame
+					if _, done := ff.regs[mc]; done {
+						return false
+					}
+					if mc.Parent() != ff.fn {
+						return false
+					}
+					ci := ex.eng.cfg(ff.fn)
+					for _, li := range ci.loops {
+						for _, b := range li.blocks {
+							if b == mc.Block() {
+								return false
+							}
+						}
+					}
+					return true
+				}
 				for _, a := range f.allocSeq {
-					if !a.Heap || !privateCell(a) {
+					if !a.Heap || !(privateCell(a) || privateCellAt(a, pending)) {
+						if a.Heap && os.Getenv("CSVQVC_DEBUGCELL") != "" {
+							fmt.Fprintf(os.Stderr, "CELL not private: %s in %s at %s\n", a.Comment, shortName(f.fn.String()), why)
+						}
 						continue
 					}
 					rv, ok := f.regs[a]
 					if !ok || len(rv.C) != 1 {
 						continue
 					}
-					for _, k := range refKeys(derefType(a.Type())) {
-						if ws.keys[k] {
+					if ex.inClosureCall {
+						// the literal being called may write the variables it captures, and only those
+						captured := ex.callBindings == nil
+						for _, b := range ex.callBindings {
+							if len(b.C) == 1 && b.C[0] == rv.C[0] {
+								captured = true
+							}
+						}
+						if captured {
 							continue
 						}
+					}
+					if closureAssigns(a) {
+						// a literal that captures the variable assigns it: what a call into such a literal does to it is
+						// not tracked here
+						continue
+					}
+					if strings.HasPrefix(why, "loop") && f == fr && fr.curLoop != nil && storedInBlocks(a, fr.curLoop.blocks) {
+						// the loop itself assigns the variable
+						continue
+					}
+					for _, k := range refKeys(derefType(a.Type())) {
 						srt, ok := keySortReg[k]
 						if !ok || srt.Kind != SArray {
 							continue
@@ -1884,9 +1924,15 @@ var privateCellMemo = map[*ssa.Alloc]bool{}
 
 // privateCell: a heap-allocated local whose address is used only by loads, stores and function literals that are
 // called directly or deferred (never stored, passed as an argument, returned or started with go).
-func privateCell(a *ssa.Alloc) bool {
-	if v, ok := privateCellMemo[a]; ok {
-		return v
+func privateCell(a *ssa.Alloc) bool { return privateCellAt(a, nil) }
+
+// privateCellAt: pending(mc) tells that the function literal mc has not been created yet on the way to the program point at
+// hand (so it cannot have escaped yet); results that depend on it are not memoised.
+func privateCellAt(a *ssa.Alloc, pending func(*ssa.MakeClosure) bool) bool {
+	if pending == nil {
+		if v, ok := privateCellMemo[a]; ok {
+			return v
+		}
 	}
 	res := true
 	if _, isArr := derefType(a.Type()).Underlying().(*types.Array); isArr {
@@ -1911,6 +1957,9 @@ func privateCell(a *ssa.Alloc) bool {
 				}
 			case *ssa.DebugRef:
 			case *ssa.MakeClosure:
+				if pending != nil && pending(i) {
+					continue
+				}
 				if i.Referrers() == nil {
 					res = false
 					break outer
@@ -1945,7 +1994,9 @@ func privateCell(a *ssa.Alloc) bool {
 			}
 		}
 	}
-	privateCellMemo[a] = res
+	if pending == nil {
+		privateCellMemo[a] = res
+	}
 	return res
 }
 
@@ -1986,4 +2037,57 @@ func calledOnlyLocal(addr ssa.Value) bool {
 		}
 	}
 	return true
+}
+
+var closureAssignsMemo = map[*ssa.Alloc]bool{}
+
+// closureAssigns: some function literal that captures the variable stores into it.
+func closureAssigns(a *ssa.Alloc) bool {
+	if v, ok := closureAssignsMemo[a]; ok {
+		return v
+	}
+	res := false
+	if a.Referrers() != nil {
+		for _, r := range *a.Referrers() {
+			mc, ok := r.(*ssa.MakeClosure)
+			if !ok {
+				continue
+			}
+			cf, ok := mc.Fn.(*ssa.Function)
+			if !ok {
+				res = true
+				continue
+			}
+			for bi, b := range mc.Bindings {
+				if b != ssa.Value(a) || bi >= len(cf.FreeVars) || cf.FreeVars[bi].Referrers() == nil {
+					continue
+				}
+				for _, u := range *cf.FreeVars[bi].Referrers() {
+					switch x := u.(type) {
+					case *ssa.UnOp, *ssa.DebugRef:
+					case *ssa.Store:
+						if x.Addr == ssa.Value(cf.FreeVars[bi]) {
+							res = true
+						}
+					default:
+						// handed on (captured again by a nested literal, address taken): treated as assigned
+						res = true
+					}
+				}
+			}
+		}
+	}
+	closureAssignsMemo[a] = res
+	return res
+}
+
+func storedInBlocks(a *ssa.Alloc, blocks []*ssa.BasicBlock) bool {
+	for _, b := range blocks {
+		for _, in := range b.Instrs {
+			if s, ok := in.(*ssa.Store); ok && s.Addr == ssa.Value(a) {
+				return true
+			}
+		}
+	}
+	return false
 }
